@@ -8,6 +8,7 @@ import (
 	"time"
 
 	martian "github.com/google/martian/v3"
+	"github.com/google/martian/v3/mitm"
 )
 
 // Opts configures Start.
@@ -16,6 +17,7 @@ type Opts struct {
 	Cap    int  // pipe capacity per direction (default 64 KiB)
 	ResMod martian.ResponseModifier
 	ReqMod martian.RequestModifier
+	MITM   *mitm.Config // if set, CONNECT requests are MITM'd
 }
 
 // Env is a running martian proxy with a scripted origin behind it.
@@ -51,6 +53,9 @@ func Start(o Opts) (*Env, error) {
 	}
 	if o.ReqMod != nil {
 		e.Proxy.SetRequestModifier(o.ReqMod)
+	}
+	if o.MITM != nil {
+		e.Proxy.SetMITM(o.MITM)
 	}
 	go func() {
 		e.Proxy.Serve(l)
